@@ -111,6 +111,9 @@ func solveOne(o *Obligation, timeout int, thorough bool) {
 		o.Solver = "static"
 		return
 	}
+	if o.shortTimeout > 0 && o.shortTimeout < timeout {
+		timeout = o.shortTimeout
+	}
 	solveMu.Lock()
 	solveCounter++
 	tag := fmt.Sprintf("q%d", solveCounter)
